@@ -7,7 +7,7 @@ from . import common as K
 PROP = "C06"
 RULE = ("cases: (a) sym / bin — a requested debug id (bin: debug id, code id, or both) and 0..7 candidates in arbitrary order drawn from every non-emptied fixture (ELF, ELF debug files, Mach-O thin and fat, "
         "dSYM DWARF, PE, PDB, object files, archives, scripts), copies of ELF fixtures whose build-id note has one byte flipped at each of the 20 positions (same debug id / different code id for bytes 16..19), "
-        "truncated copies, generated fat archives, missing / empty / garbage files; requests for ids of present files, of absent files, of flipped copies, and for the id of a present file with another age (lower or higher); "
+        "truncated copies, generated fat archives, images inside generated dyld shared caches (the requested build, another build under the same install path, the path missing) and generated standalone Mach-O files, missing / empty / garbage files; requests for ids of present files, of absent files, of flipped copies, and for the id of a present file with another age (lower or higher); "
         "(b) fat — generated fat archives of 1..4 thin Mach-O fixtures (duplicates allowed) and the fixture fat archives, loaded with the id of a member, a foreign id or no disambiguator, the member "
         "ids computed independently from LC_UUID in Python; (c) companion — .gnu_debuglink targets (regular-debuglink, dwp-debuglink) and the dwz supplementary file of ls-linux under byte flips everywhere "
         "and specifically in each build-id byte, truncation, appended bytes, zeroed ranges, and replacement by other debug files. Observed: ids of what load_symbol_map / load_binary return, and whether lookups "
@@ -16,7 +16,7 @@ RULE = ("cases: (a) sym / bin — a requested debug id (bin: debug id, code id, 
 TRUSTED = ["harness h_symbols/src/cand.rs: in-memory FileAndPathHelper; own crc32 (bitwise) as oracle for the debuglink CRC; `object`'s build_id() as oracle for the supplementary file's id",
            "vlib/c06.py computes Mach-O member ids (LC_UUID) and ELF debug ids from build-id bytes independently of samply",
            "the standalone outcome of a candidate (does it parse, which id does it carry) is taken from samply itself (load_symbol_map_from_location / load_binary_at_location); id extraction per format is C19's concern"]
-ASSUMPTIONS = ["dyld shared cache candidates (CandidatePathInfo::InDyldCache) are not exercised: no cache fixture exists",
+ASSUMPTIONS = ["dyld shared cache candidates (CandidatePathInfo::InDyldCache) are exercised with generated single-file arm64 caches of 1..3 minimal images (no subcaches); real caches do not exist among the fixtures",
                "a companion whose id matches but whose damaged contents give no frames is recorded (verdict 4), not judged"]
 
 FX = os.path.join(K.REPO, "fixtures")
@@ -148,6 +148,80 @@ def build_fat(members):
     return head + bytes(4096 - len(head)) + body
 
 
+# ---------- synthetic Mach-O images and dyld shared caches ----------
+DYLD_UUIDS = ["0f1e2d3c4b5a69788796a5b4c3d2e1f0", "aaaaaaaabbbbccccddddeeeeeeeeeeee", "11111111222233334444555555555555", "00112233445566778899aabbccddeeff"]
+DYLD_PATHS = ["/usr/lib/libA.dylib", "/usr/lib/system/libB.dylib", "/System/Library/Frameworks/X.framework/X"]
+_IMG = 0x2000
+
+
+def _name16(sx):
+    return sx.encode() + b"\0" * (16 - len(sx))
+
+
+def _macho_image(buf, fo, vmaddr, uuid_hex, sym):
+    """a minimal arm64 MH_DYLIB at buf[fo:fo+0x2000]: __TEXT (header, __text at +0x800), __LINKEDIT (one nlist_64 + string table), LC_UUID, LC_SYMTAB"""
+    cmds = b""
+    cmds += struct.pack("<II16sQQQQIIII", 0x19, 72 + 80, _name16("__TEXT"), vmaddr, 0x1000, fo, 0x1000, 5, 5, 1, 0)
+    cmds += struct.pack("<16s16sQQIIIIIIII", _name16("__text"), _name16("__TEXT"), vmaddr + 0x800, 0x40, fo + 0x800, 2, 0, 0, 0x80000400, 0, 0, 0)
+    cmds += struct.pack("<II16sQQQQIIII", 0x19, 72, _name16("__LINKEDIT"), vmaddr + 0x1000, 0x1000, fo + 0x1000, 0x1000, 1, 1, 0, 0)
+    cmds += struct.pack("<II", 0x1b, 24) + bytes.fromhex(uuid_hex)
+    strtab = b"\0" + sym.encode() + b"\0"
+    cmds += struct.pack("<IIIIII", 0x2, 24, fo + 0x1000, 1, fo + 0x1010, len(strtab))
+    hdr = struct.pack("<IIIIIIII", 0xfeedfacf, 0x0100000c, 0, 6, 4, len(cmds), 0, 0)
+    buf[fo:fo + len(hdr) + len(cmds)] = hdr + cmds
+    for i in range(0, 0x40, 4):
+        buf[fo + 0x800 + i:fo + 0x804 + i] = struct.pack("<I", 0xd65f03c0)
+    buf[fo + 0x1000:fo + 0x1010] = struct.pack("<IBBHQ", 1, 0x0f, 1, 0, vmaddr + 0x800)
+    buf[fo + 0x1010:fo + 0x1010 + len(strtab)] = strtab
+
+
+def build_macho(uuid_hex, sym="_standalone"):
+    buf = bytearray(_IMG)
+    _macho_image(buf, 0, 0, uuid_hex, sym)
+    return bytes(buf)
+
+
+def build_dyld_cache(images):
+    """a single-file dyld shared cache (current header layout, no subcaches) holding [(install path, uuid hex)] images, all mapped by one mapping"""
+    hs = 0x1c8
+    mo = hs
+    io = mo + 32
+    po = io + 32 * len(images)
+    plen = sum(len(pth) + 1 for pth, _ in images)
+    first = (po + plen + 0xfff) & ~0xfff
+    flen = first + _IMG * len(images)
+    base = 0x180000000
+    buf = bytearray(flen)
+    buf[0:16] = b"dyld_v1   arm64\0"
+    struct.pack_into("<II", buf, 0x10, mo, 1)
+    buf[0x58:0x68] = bytes.fromhex("c0c1c2c3c4c5c6c7c8c9cacbcccdcecf")
+    struct.pack_into("<II", buf, 0x1c0, io, len(images))
+    struct.pack_into("<QQQII", buf, mo, base, flen, 0, 5, 5)
+    pc = po
+    for i, (pth, uu) in enumerate(images):
+        fo = first + i * _IMG
+        struct.pack_into("<Q", buf, io + 32 * i, base + fo)
+        struct.pack_into("<I", buf, io + 32 * i + 24, pc)
+        buf[pc:pc + len(pth)] = pth.encode()
+        pc += len(pth) + 1
+        _macho_image(buf, fo, base + fo, uu, "_img%d_%s" % (i, uu[:4]))
+    return bytes(buf)
+
+
+def _dyld_spec(desc):
+    """'dyld:<path~uuid,...>:<dylib path>' -> ([(path, uuid)], dylib path)"""
+    _, spec, dylib = desc.split(":", 2)
+    return [tuple(x.split("~")) for x in spec.split(",") if x], dylib
+
+
+def _dyld_standalone(desc, kind):
+    images, dylib = _dyld_spec(desc)
+    for pth, uu in images:
+        if pth == dylib:
+            return ("ok:%s0" % uu.upper()) if kind == "sym" else ("ok:%s0:%s" % (uu.upper(), uu.upper()))
+    return "err"
+
+
 # ---------- materialising candidates ----------
 class Scratch:
     def __init__(self):
@@ -166,6 +240,18 @@ class Scratch:
             return self.made[desc]
         p = os.path.join(self.dir, "d%d" % len(self.made))
         kind, _, rest = desc.partition(":")
+        if kind == "dyld":
+            images, dylib = _dyld_spec(desc)
+            cache = self.path("dyldcache:" + desc.split(":", 2)[1])
+            return "dyld=%s=%s" % (cache, dylib)
+        if kind == "dyldcache":
+            open(p, "wb").write(build_dyld_cache([tuple(x.split("~")) for x in rest.split(",") if x]))
+            self.made[desc] = p
+            return p
+        if kind == "macho":
+            open(p, "wb").write(build_macho(rest))
+            self.made[desc] = p
+            return p
         if kind == "flip":
             rel, k, mask = rest.rsplit(":", 2)
             data = bytearray(open(os.path.join(FX, rel), "rb").read())
@@ -213,10 +299,25 @@ def gen(tier, rng, scale):
     fatfx = [f for f in ("macos-ci/firefox",) if f in pool or os.path.exists(os.path.join(FX, f))]
     cases = []
 
+    def dyld_cand(path=None, uuid=None, present=True):
+        """a candidate inside a generated shared cache of 1..3 images; `path` is held with `uuid` when present"""
+        paths = [p_ for _, p_ in sorted((rng.next(), p_) for p_ in DYLD_PATHS)]
+        images = [(q_, rng.choice(DYLD_UUIDS)) for q_ in paths[:rng.range(1, 3)]]
+        want = path or rng.choice(DYLD_PATHS)
+        images = [(a, b) for a, b in images if a != want]
+        if present:
+            images.insert(rng.below(len(images) + 1), (want, uuid or rng.choice(DYLD_UUIDS)))
+        if not images:
+            images = [(rng.choice([q_ for q_ in DYLD_PATHS if q_ != want]), rng.choice(DYLD_UUIDS))]
+        return "dyld:%s:%s" % (",".join("%s~%s" % im for im in images), want)
+
     def some_cands(target, n):
         cs = []
         for _ in range(n):
             r = rng.below(100)
+            if r >= 94:
+                cs.append(dyld_cand(present=rng.chance(3, 4)) if rng.chance(2, 3) else "macho:" + rng.choice(DYLD_UUIDS))
+                continue
             if r < 30:
                 cs.append("fx:" + rng.choice(files))
             elif r < 45 and target:
@@ -264,8 +365,23 @@ def gen(tier, rng, scale):
                 # same build, different age: lower and higher than the file's (a candidate with a HIGHER age than requested is not the requested build either)
                 req = req[:-1] + rng.choice([a for a in ("0", "1", "2", "9", "a", "1f") if a != req[-1].lower()])
                 target = None
+            dy_extra = []
+            if q in (4, 5):
+                # images of a dyld shared cache (CandidatePathInfo::InDyldCache): the requested build is the image the cache holds under that install path
+                # (q = 4) or a file on disk while the cache holds ANOTHER build under the same path (q = 5, a recording made before a system update)
+                uu = rng.choice(DYLD_UUIDS)
+                pth = rng.choice(DYLD_PATHS)
+                req = uu.upper() + "0"
+                target = None
+                tdesc = dyld_cand(pth, uu) if q == 4 else "macho:" + uu
+                if q == 5 or rng.chance(1, 2):
+                    dy_extra.append(dyld_cand(pth, rng.choice([u_ for u_ in DYLD_UUIDS if u_ != uu])))
+                if rng.chance(1, 3):
+                    dy_extra.append(dyld_cand(pth, present=False))
             n = rng.choice([0, 1, 2, 3, 3, 4, 5, 7])
             cs = some_cands(target, n)
+            for d_ in dy_extra:
+                cs.insert(rng.below(len(cs) + 1), d_)
             if rng.chance(1, 4):
                 cs = [c for c in cs if c != "fx:%s" % target]      # (most likely) no matching candidate at all: must fail
             else:
@@ -301,8 +417,20 @@ def gen(tier, rng, scale):
             elif rng.chance(1, 8) and bd:
                 req = bd[:-1] + rng.choice([a for a in ("0", "1", "2", "a") if a != bd[-1].lower()])       # the same GUID with another age, lower or higher
                 target = None
+            dy_extra = []
+            if rng.chance(1, 7):
+                # binaries inside a dyld shared cache, by debug id or by code id (the LC_UUID in both cases)
+                uu = rng.choice(DYLD_UUIDS)
+                pth = rng.choice(DYLD_PATHS)
+                req = rng.choice([uu.upper() + "0", "code:" + uu.upper(), uu.upper() + "0+code:" + rng.choice(DYLD_UUIDS).upper()])
+                target = None
+                tdesc = dyld_cand(pth, uu) if rng.chance(1, 2) else "macho:" + uu
+                if rng.chance(2, 3):
+                    dy_extra.append(dyld_cand(pth, rng.choice([u_ for u_ in DYLD_UUIDS if u_ != uu])))
             n = rng.choice([0, 1, 2, 3, 3, 4, 5, 7])
             cs = some_cands(target, n)
+            for d_ in dy_extra:
+                cs.insert(rng.below(len(cs) + 1), d_)
             if rng.chance(1, 4):
                 cs = [c for c in cs if c != "fx:%s" % target]
             else:
@@ -518,6 +646,9 @@ def evaluate(cases):
             st = left.split()
             sel = sel.strip()
             toks = meta[i]
+            if len(st) == len(c["items"]):
+                # images inside a generated shared cache: which build the cache holds under the path is known from the generator
+                st = [_dyld_standalone(d_, k) if s_ == "dyld" else s_ for s_, d_ in zip(st, c["items"])]
             if len(st) != len(toks):
                 pre[i] = 1
                 continue
@@ -526,8 +657,10 @@ def evaluate(cases):
                 cs = K.coq_list(["CErr" if s == "err" else "(COk %d)" % intern(s[3:]) for s in st])
                 if sel.startswith("sel:"):
                     _, sid, loc = sel.split(":", 2)
-                    locs = [("%s%d" % (t[1:], j)) if t.startswith("@") else t for j, t in enumerate(toks)]
-                    pos = locs.index(loc) if loc in locs else None
+                    locs = [("%s%d" % (t[1:], j)) if t.startswith("@") else t[5:].split("=")[0] if t.startswith("dyld=") else t for j, t in enumerate(toks)]
+                    pos = next((j for j, l_ in enumerate(locs) if l_ == loc and st[j] == "ok:" + sid), None)
+                    if pos is None:
+                        pos = locs.index(loc) if loc in locs else None
                     if pos is None:
                         # the symbol map names a different file as its debug file (e.g. a PDB found next to a DLL): take the first candidate with that id
                         pos = next((j for j, s in enumerate(st) if s == "ok:" + sid), 9999)
